@@ -1082,6 +1082,21 @@ lbl2:
     ins_343(5, 1.5);
 ''')
 
+# (o) an entry whose path marks it as a render target ('@...') but which asks for image data
+add('feature/anm12-render-target-with-data', 'ANM_12', full='''
+#pragma mapfile "map/any.anmm"
+entry {
+    path: "@R",
+    has_data: "dummy",
+    img_width: 4,
+    img_height: 4,
+    img_format: 1,
+    offset_x: 0, offset_y: 0, colorkey: 0, memory_priority: 0, low_res_scale: false,
+    sprites: {sprite0: {id: 0, x: 0.0, y: 0.0, w: 4.0, h: 4.0}},
+}
+script script0 { ins_1(); }
+''')
+
 # --- seeded generated programs (tools/gen_programs.py): ids gen/<profile>-<k>, tag 'gen'
 import gen_programs
 for g in gen_programs.generate():
